@@ -43,7 +43,7 @@ AMOUNTS = ["const", "negconst", "isub", "reg", "expr", "fixedconst",
            "isubregw", "isubfixedconst", "var_q", "local_i",
            "var_x", "isubvar_x", "isubxexpr",
            "zero_then_const", "mm_same", "named_diff", "isubreg_twice",
-           "stack_value"]
+           "stack_value", "const_after_fixed", "after_table"]
 FIXED_ONLY = ("fixedconst", "isubfixedconst", "var_x", "isubvar_x",
               "isubxexpr")
 # ptrN: the cell of an array map addressed through a pointer the program
@@ -87,6 +87,10 @@ def build(fmt, kind, amount, amount_value):
         ns["lamt"] = LocalVar("i")
     ns["out"] = m.globalVar("Q")
     ns["aux"] = m.globalVar("q")
+    ns["auxx"] = m.globalVar("x")
+    if amount == "after_table":
+        ns["tab"] = m.globalVar("8Q")
+        ns["tidx"] = m.globalVar("I")
     ns["cellinit"] = m.globalVar("Q")
     if kind == "array" or kind.startswith("ptr"):
         ns["cell"] = m.globalVar(fmt)
@@ -180,6 +184,20 @@ def build(fmt, kind, amount, amount_value):
                 aux -= d_
                 e.aux = aux
                 cur -= d_
+            elif amount == "const_after_fixed":
+                # the same integer constant added to a fixed-point variable
+                # first, to the cell afterwards
+                ax = e.auxx
+                ax += amount_value
+                e.auxx = ax
+                cur += amount_value
+            elif amount == "after_table":
+                # the dispatcher's idiom first: take the address of a table
+                # in the map, move the pointer, count through it
+                with e.tab.get_address(None, False, False) as (dst_, _):
+                    e.r[dst_] += 8 * (e.tidx & 7)
+                    e.mQ[e.r[dst_]] += 1
+                cur += amount_value
             elif amount == "isubreg_twice":
                 # the same register subtracted from two variables one after
                 # the other: the cell is the second
@@ -274,7 +292,7 @@ def amount_raw(fmt, amount, amount_value, amt_in):
         d = amt_in & 0xffffffff
     elif amount == "isubregw":
         d = -(amt_in & 0xffffffff)
-    elif amount == "zero_then_const":
+    elif amount in ("zero_then_const", "const_after_fixed", "after_table"):
         d = amount_value
     elif amount == "named_diff":
         d = -(amt_in - 3)
@@ -400,6 +418,9 @@ def explore(fmt, kind, amount, res, rng, tier, amount_value=None):
                     m[pos:pos + 4] = struct.pack("<I", amt_in & 0xffffffff)
                     pos = e.__dict__["amt_x"]
                     m[pos:pos + 8] = struct.pack("<q", amt_in)
+                    if "tidx" in e.__dict__:
+                        pos = e.__dict__["tidx"]
+                        m[pos:pos + 4] = struct.pack("<I", 3)
                     pos = e.__dict__["cellinit"]
                     m[pos:pos + 8] = struct.pack("<Q", init)
                     vms = [ebpfvm.VM(mem, ebpfvm.Program(ld.code, f"i{i}"),
@@ -573,6 +594,9 @@ def stress(res, tier, rng):
                 m[pos:pos + 4] = struct.pack("<I", amt_in & 0xffffffff)
                 pos = e.__dict__["amt_x"]
                 m[pos:pos + 8] = struct.pack("<q", amt_in)
+                if "tidx" in e.__dict__:
+                    pos = e.__dict__["tidx"]
+                    m[pos:pos + 4] = struct.pack("<I", 3)
                 mask = (1 << (8 * size)) - 1
                 init = rng.getrandbits(8 * size)
                 if kind == "array":
